@@ -13,7 +13,6 @@ Section P1.
   Hypothesis Rth : ring_theory r0 r1 radd rmul rsub ropp (@eq R).
   Add Ring Rr1 : Rth.
   Variable reqb : R -> R -> bool.
-  Variable rtrunc : R -> R.
 
   Local Notation mat := (list (list R)).
   Local Notation vec := (list R).
@@ -186,27 +185,20 @@ Section P1.
 
   Definition mapping_matrix (m : mapping R) : mat :=
     match m with
-    | MapTuple A b mdt => from_matvec R r0 r1 A (tuple_vec R rtrunc mdt b)
+    | MapTuple A b _ _ => from_matvec R r0 r1 A b
     | MapMatrix M _ => M
     | MapAffine a => amat a
     end.
 
-  Lemma tuple_mapping_action n (A : mat) (b x : vec) (mdt : nat) :
-    mdt <> 0 \/ map rtrunc b = b ->
+  Lemma tuple_mapping_action n (A : mat) (b x : vec) (adt bdt : nat) :
     length A = n -> length b = n -> rows_len n A -> 0 < n -> length x = n ->
-    Happly (mapping_matrix (MapTuple A b mdt)) x = vadd radd (Mv A x) b.
-  Proof.
-    intros Hm HA Hb Hr Hn Hx. cbn [mapping_matrix].
-    assert (E : tuple_vec R rtrunc mdt b = b).
-    { unfold tuple_vec. destruct (Nat.eqb_spec mdt 0) as [E0|E0]; [|reflexivity].
-      destruct Hm as [Hm|Hm]; [contradiction|exact Hm]. }
-    rewrite E. now apply (from_matvec_action n).
-  Qed.
+    Happly (mapping_matrix (MapTuple A b adt bdt)) x = vadd radd (Mv A x) b.
+  Proof. intros HA Hb Hr Hn Hx. cbn [mapping_matrix]. now apply (from_matvec_action n). Qed.
 
   Lemma tw2iw_matrix icm target m TW :
-    tw2iw R r0 r1 reqb rtrunc icm target m = Ok TW -> amat TW = mapping_matrix m.
+    tw2iw R r0 r1 reqb icm target m = Ok TW -> amat TW = mapping_matrix m.
   Proof.
-    destruct m as [A b mdt|M mdt|a]; cbn [tw2iw mapping_matrix].
+    destruct m as [A b adt bdt|M mdt|a]; cbn [tw2iw mapping_matrix].
     - intros E. now apply mk_aff_ok in E.
     - intros E. now apply mk_aff_ok in E.
     - intros E. now inversion E.
@@ -216,7 +208,7 @@ Section P1.
      source voxel position Sinv (T (G v)); the result carries the target map. *)
   Lemma resample_affine_point (icm target : aff) (m : mapping R) (Sinv : mat)
         (out : aff) (A : mat) (b : vec) nt nw ns (v : vec) :
-    resample_affine R r0 r1 radd rmul reqb rtrunc icm target m Sinv = Ok (out, (A, b)) ->
+    resample_affine R r0 r1 radd rmul reqb icm target m Sinv = Ok (out, (A, b)) ->
     cs_ndim (adom target) = nt ->
     WfAff nw nt (amat target) ->
     WfAff ns nw (mapping_matrix m) ->
